@@ -166,7 +166,7 @@ def default_shift_family(draw):
 def faces_family(draw, max_calls=3):
     nf = draw(st.integers(2, 4))
     N = draw(st.integers(2, 3))
-    table = draw(gen.link_tables(nf, ("X", "Y"), min_pairs=1, keep_empty=True))
+    table = draw(gen.link_tables(nf, ("X", "Y"), min_pairs=1, keep_empty=None))   # a face may leave out an axis it has no link on
     if draw(st.integers(0, 5)) == 0:
         # now and then an inconsistent table (one slot edited): it has to be refused - in every listing order, under every
         # hash seed and whatever the names are
